@@ -289,6 +289,12 @@ func genOpts(r *rand.Rand, id string, tier string) string {
 	var recv V
 	if isCond {
 		recv = condLit(c)
+		switch r.Intn(5) { // Condition.IsFIFO answers for a Stack held as expression
+		case 0:
+			recv.Xs = []V{{T: 'K', Form: "n", Cfg: Cfg{Kind: kinds(r), Fifo: true}, Xs: []V{{T: 'i', I: 1}}}}
+		case 1:
+			recv.Xs = []V{{T: 'K', Form: "n", Cfg: Cfg{Kind: kinds(r)}}}
+		}
 	} else {
 		n0 := r.Intn(4)
 		if c.Cap != 0 && n0 > c.Cap {
